@@ -618,8 +618,27 @@ def rule_fl_fields(cx, rep, port):
                 from ..idioms import difference_comparator
                 ok = f is not None and difference_comparator(f) == ('asc', '_[1]')
         rep.decide(ok, '{}.{} order'.format(mod, fn), sorts[0] if sorts else fd, 'entries ordered by record number ascending', 'the field-count entries are not ordered by ascending record number before the first two are cited')
-        picks = [n for n in walk_no_nested(fd) if isinstance(n, ast.Assign) and isinstance(n.value, ast.Subscript) and isinstance(n.value.slice, ast.Constant) and n.value.slice.value in (0, 1)]
-        rep.decide(sorted(pk.value.slice.value for pk in picks) == [0, 1], '{}.{} picks'.format(mod, fn), fd, 'cites entries 0 and 1', 'the warning does not cite the first two entries')
+        # which positions of the ordered entries are cited: constant subscripts / leading slices of the sorted sequence
+        seqs = set()
+        for n in walk_no_nested(fd):
+            if isinstance(n, ast.Assign) and len(n.targets) == 1 and isinstance(n.targets[0], ast.Name) and any(x is sc for sc in sorts for x in ast.walk(n.value)):
+                seqs.add(n.targets[0].id)
+        for sc in sorts:
+            if isinstance(sc.func, ast.Attribute) and sc.func.attr == 'sort' and isinstance(sc.func.value, ast.Name):
+                seqs.add(sc.func.value.id)
+        cited = set()
+        for n in ast.walk(fd):
+            if isinstance(n, ast.Subscript) and ((isinstance(n.value, ast.Name) and n.value.id in seqs) or any(n.value is sc for sc in sorts)):
+                if isinstance(n.slice, ast.Constant) and isinstance(n.slice.value, int) and not isinstance(n.slice.value, bool):
+                    cited.add(n.slice.value)
+                elif isinstance(n.slice, ast.Slice) and (n.slice.lower is None or (isinstance(n.slice.lower, ast.Constant) and n.slice.lower.value == 0)) and isinstance(n.slice.upper, ast.Constant) and isinstance(n.slice.upper.value, int) and n.slice.step is None:
+                    cited |= set(range(n.slice.upper.value))
+                else:
+                    cited.add('?')
+        if not cited or '?' in cited:
+            rep.undecided('{}.{} picks'.format(mod, fn), fd, 'which of the ordered entries the warning cites is not recognised')
+        else:
+            rep.decide(cited == {0, 1}, '{}.{} picks'.format(mod, fn), fd, 'cites entries 0 and 1', 'the warning cites entries {} of the ordered list instead of the first two'.format(sorted(cited)))
 
 
 def rule_fl_none_complete(cx, rep, port):
